@@ -53,7 +53,7 @@ impl Spec {
             gap_open: self.open,
             gap_extend: self.ext,
             match_fn: move |a: u8, b: u8| mf.s(a, b),
-            match_scores: None,
+            match_scores: if mf.kind == 0 && mf.ms >= 0 && mf.mm <= 0 { Some((mf.ms, mf.mm)) } else { None },
             xclip_prefix: self.clips[0],
             xclip_suffix: self.clips[1],
             yclip_prefix: self.clips[2],
